@@ -492,16 +492,38 @@ def run_search(cfg):
                 "signature": "C13:MultiplicationOperator on a restricted support uses integration_elements[position]",
                 "what": "relative error %.3e against direct assembly on segments=%s" % (err, seg),
                 "data": {"segments": seg, "err": err}})
-    try:
-        sp = C.make_space(grid, "RWG", {})
-        dp = C.make_space(grid, "DP0", {})
-        g = api.GridFunction(sp, coefficients=np.ones(sp.global_dof_count))
-        api.MultiplicationOperator(g, sp, dp, dp, mode="inner").weak_form()
+    # vector-valued spaces: component mode and inner mode against direct assembly
+    sp = C.make_space(grid, "RWG", {})
+    dp = C.make_space(grid, "DP0", {})
+    g = api.GridFunction(sp, coefficients=rng.standard_normal(sp.global_dof_count))
+    for mode, dual in (("component", sp), ("inner", dp)):
         out["evaluations"] += 1
-    except Exception as e:
-        out["evaluations"] += 1
-        fails.append({"signature": "C13:MultiplicationOperator mode='inner' raises %s" % type(e).__name__,
-                      "what": repr(e), "data": {}})
+        try:
+            m = np.asarray(api.MultiplicationOperator(g, sp, dual, dual, mode=mode).weak_form().to_sparse().todense())
+        except Exception as e:
+            fails.append({"signature": "C13:MultiplicationOperator mode='%s' raises %s" % (mode, type(e).__name__),
+                          "what": repr(e), "data": {}})
+            continue
+        ref = np.zeros_like(m)
+        for e in sp.support_elements:
+            dv = sp.evaluate(e, pts)
+            tv = dual.evaluate(e, pts)
+            gv = g.evaluate(e, pts)
+            j = grid.integration_elements[e]
+            for a in range(dual.number_of_shape_functions):
+                for b in range(3):
+                    if mode == "component":
+                        val = (tv[:, a, :] * dv[:, b, :] * gv * wts).sum() * j
+                    else:
+                        val = (tv[0, a, :] * (dv[:, b, :] * gv).sum(axis=0) * wts).sum() * j
+                    ref[dual.local2global[e, a], sp.local2global[e, b]] += val * 1.0
+        err = float(np.abs(m - ref).max()) / float(np.abs(ref).max())
+        out["worst"]["multiplication_operator_vector_%s" % mode] = err
+        if not err <= 1e-12:
+            fails.append({
+                "signature": "C13:MultiplicationOperator mode='%s' on vector-valued spaces differs from direct assembly "
+                             "(scale values broadcast over the shape-function axis)" % mode,
+                "what": "relative error %.3e against direct assembly (RWG, whole grid)" % err, "data": {"err": err}})
     out["wall"] = time.time() - t0
     return out
 
